@@ -223,3 +223,16 @@ func (fc *FnCtx) checkStepInv(fr *Frame, st *State, instr ssa.Instruction) {
 	}
 	_ = fmt.Sprint
 }
+
+// isUserCallback: the called function value comes from a local variable, parameter or captured variable
+// (not from a struct field set up by the repository itself).
+func isUserCallback(v ssa.Value) bool {
+	switch x := v.(type) {
+	case *ssa.UnOp:
+		_, ok := x.X.(*ssa.Alloc)
+		return ok
+	case *ssa.Parameter, *ssa.FreeVar:
+		return true
+	}
+	return false
+}
